@@ -643,6 +643,9 @@ class NumberOrderedForm(Operator):
                 and exp.is_integer
                 and exp.is_positive
             ):
+                if (exp - One).is_positive and not isinstance(base, (BosonOp, LadderOp)):
+                    # Fermionic and spin operators are nilpotent
+                    return cls(operators, Tuple(), validate=False)
                 # Find the operator index in the operators list
                 op = base if base.is_annihilation else base.adjoint()
                 powers = tuple(
